@@ -273,3 +273,113 @@ def fidelity(tier, seed):
     """A-FRONT guard: THDM a_mu functions and getters, interpreter (float mode) vs compiled real code on real models"""
     from gm2v import fidelity as _fid
     return _fid.thdm_model_guard(seed=seed)
+
+# ------------------------------------------------------------------------------------------------ constructors
+CTOR_REPLAY = r'''
+#include <cstdio>
+#include <cmath>
+#include <complex>
+#include <Eigen/Core>
+#define private public
+#include "gm2calc/THDM.hpp"
+#undef private
+#include "gm2calc/SM.hpp"
+#include "gm2calc/gm2_error.hpp"
+// both REAL constructors with pairwise different zeta_f / Delta_f in the flavour-aligned type: the model must report what the basis carried
+int main() {
+   int bad = 0;
+   Eigen::Matrix<double,3,3> Du, Dd, Dl;
+   Du << 0.01, 0.02, 0.03, 0.04, 0.05, 0.06, 0.07, 0.08, 0.09; Dd = -2 * Du; Dl = 3 * Du.transpose();
+   gm2calc::SM sm;
+   for (int which = 0; which < 2; which++) {
+      try {
+         gm2calc::thdm::Gauge_basis g; gm2calc::thdm::Mass_basis m;
+         g.yukawa_type = m.yukawa_type = gm2calc::thdm::Yukawa_type::aligned;
+         g.zeta_u = m.zeta_u = 0.5; g.zeta_d = m.zeta_d = -2.0; g.zeta_l = m.zeta_l = 3.0;
+         g.Delta_u = m.Delta_u = Du; g.Delta_d = m.Delta_d = Dd; g.Delta_l = m.Delta_l = Dl;
+         g.lambda << 0.7, 0.6, 0.5, 0.4, 0.3, 0.2, 0.1; g.tan_beta = 3; g.m122 = 40000;
+         m.mh = 125; m.mH = 400; m.mA = 420; m.mHp = 440; m.sin_beta_minus_alpha = 0.995; m.tan_beta = 3; m.m122 = 40000;
+         const gm2calc::THDM th = which ? gm2calc::THDM(m, sm) : gm2calc::THDM(g, sm);
+         const char* nm = which ? "mass basis" : "gauge basis";
+         if (th.get_zeta_u() != 0.5) { bad++; std::printf("%s: get_zeta_u() = %g, basis 0.5\\n", nm, th.get_zeta_u()); }
+         if (th.get_zeta_d() != -2.0) { bad++; std::printf("%s: get_zeta_d() = %g, basis -2\\n", nm, th.get_zeta_d()); }
+         if (th.get_zeta_l() != 3.0) { bad++; std::printf("%s: get_zeta_l() = %g, basis 3\\n", nm, th.get_zeta_l()); }
+         if ((th.Delta_u - Du).cwiseAbs().maxCoeff() != 0) { bad++; std::printf("%s: Delta_u differs\\n", nm); }
+         if ((th.Delta_d - Dd).cwiseAbs().maxCoeff() != 0) { bad++; std::printf("%s: Delta_d differs\\n", nm); }
+         if ((th.Delta_l - Dl).cwiseAbs().maxCoeff() != 0) { bad++; std::printf("%s: Delta_l differs\\n", nm); }
+      } catch (const gm2calc::Error& e) { std::printf("exception: %s\\n", e.what()); }
+   }
+   std::printf("%d members differ from the basis\\n", bad);
+   return bad ? 1 : 0;
+}
+'''
+
+def ctor_replay(model, wd):
+    from gm2v import native
+    import subprocess
+    exe = native.build_against_library(wd, CTOR_REPLAY)
+    r = subprocess.run([exe], capture_output=True, text=True, timeout=120)
+    return r.returncode == 1, r.stdout.strip()[-1200:]
+
+def make_ctor(basis_cls):
+    @obligation('C09.constructor.%s' % basis_cls, fns=[(TH, 'THDM::THDM')], replay=ctor_replay)
+    def ob(ctx):
+        """ensures (both constructors; init_gauge_couplings / set_basis by their own contracts, C08): after THDM(basis, sm, config) the members that parametrise the
+        Yukawa sector are exactly the documented fields of the basis: yukawa_type, zeta_u, zeta_d, zeta_l, Delta_u, Delta_d, Delta_l (each from the field of the same
+        name), the SM input and the configuration are the ones passed, init_gauge_couplings() runs before set_basis(basis), and set_basis receives that same basis"""
+        calls = []
+        def rec(name):
+            def st(it_, a, t):
+                calls.append((name, a[0] if a else None))
+                return None
+            return st
+        it = Interp(ctx.w, mode='sym', stubs={'THDM::init_gauge_couplings': rec('init_gauge_couplings'), 'THDM::set_basis': rec('set_basis'),
+                                              'init_gauge_couplings': rec('init_gauge_couplings'), 'set_basis': rec('set_basis')})
+        fds = [f for f in ctx.w.find('THDM::THDM', TH) if len(f.params) == 3 and basis_cls in str(f.params[0].type.name)]
+        if len(fds) != 1:
+            ctx.record('extraction', ERROR, 'B', 0, '%d constructors THDM(%s, SM, Config)' % (len(fds), basis_cls))
+            return
+        th = it.new_object('THDM')
+        basis = it.new_object(basis_cls, symbolic_fields(None, prefix='basis.'))
+        basis.f['yukawa_type'] = z3.Real('basis.yukawa_type')
+        sm = it.new_object('SM', symbolic_fields(None, prefix='sm.'))
+        cfg = it.new_object('Config', symbolic_fields(None, prefix='cfg.'))
+        cfg.f['force_output'], cfg.f['running_couplings'] = z3.Bool('cfg.force_output'), z3.Bool('cfg.running_couplings')
+        ps = it.run_paths(lambda: (calls.__delitem__(slice(None)), it.invoke(fds[0], [basis, sm, cfg], th))[1])
+        ctx.merge_rules(it)
+        if len(ps) != 1 or ps[0][2] is not None:
+            ctx.record('paths', FAILED, 'B', 0, 'expected one exception-free path through the constructor, got %s' % [(str(p[2])) for p in ps])
+            return
+        def same(a, b):
+            if isinstance(a, Mat) and isinstance(b, Mat):
+                return (a.r, a.c) == (b.r, b.c) and all(same(x, y) for x, y in zip(a.elems(), b.elems()))
+            if isinstance(a, Obj) and isinstance(b, Obj):
+                return a.cls == b.cls and set(a.f) == set(b.f) and all(same(a.f[k], b.f[k]) for k in a.f)
+            if isinstance(a, Cx) or isinstance(b, Cx):
+                from gm2v.values import cx as _cx
+                a, b = _cx(a), _cx(b)
+                return same(a.re, b.re) and same(a.im, b.im)
+            if is_sym(a) or is_sym(b):
+                try:
+                    return z3.eq(z3.simplify(to_z3(a)), z3.simplify(to_z3(b)))
+                except Exception:
+                    return False
+            return a == b
+        for fld in ('yukawa_type', 'zeta_u', 'zeta_d', 'zeta_l', 'Delta_u', 'Delta_d', 'Delta_l'):
+            ok = same(th.f[fld], basis.f[fld])
+            ctx.record('member.%s' % fld, PROVED if ok else FAILED, 'B', 0, 'this->%s == basis.%s' % (fld, fld) if ok else 'this->%s is %s, not basis.%s' % (fld, str(th.f[fld])[:80], fld),
+                       model=None if ok else {'_float': {'basis.zeta_u': 0.5, 'basis.zeta_d': -2.0, 'basis.zeta_l': 3.0}})
+        ctx.record('member.sm', PROVED if same(th.f['sm'], sm) else FAILED, 'B', 0, 'this->sm is a copy of the SM object passed')
+        ctx.record('member.config', PROVED if same(th.f['config'], cfg) else FAILED, 'B', 0, 'this->config is a copy of the configuration passed')
+        order = [c[0] for c in calls]
+        ok = order == ['init_gauge_couplings', 'set_basis'] and calls[1][1] is not None and same(calls[1][1], basis)
+        ctx.record('body', PROVED if ok else FAILED, 'B', 0, 'calls in the body: %s; set_basis receives the constructor\'s basis: %s' % (order, ok))
+    return ob
+
+make_ctor('Gauge_basis')
+make_ctor('Mass_basis')
+
+# Contracts on single calls carry over to every call in a process only if no function keeps state between calls: C19's static-frame obligation is a lemma here.
+from contracts.shared import reregister as _rr_static
+from contracts import c19 as _c19_static
+_rr_static('C09', 'C19', 'C19.no_stateful_local_statics', 'C09.lemma.no_state_between_calls', replay=None)
